@@ -6,7 +6,7 @@ ROOT = os.path.dirname(os.path.dirname(os.path.abspath(__file__)))
 CLAIMED = {
  "C01": ("Lean proof of sorted-map refinement (split/union/join treap) + differential correspondence",
          "Theorems C01.refines_sorted_map / reads_agree / invariants hold for every Set/Delete history and every TransCmp comparator; Machine.refinement extends it to stores with Flush/re-open. The executable model is run against the real package on generated histories (memory and file stores, flush/evict/re-open placement, malformed items) and every API result is compared.",
-         "Model hand-written; tie = differential runs on generated histories; lengths < 2^32."),
+         "Model hand-written; tie = differential runs on generated histories; lengths < 2^32. Profile C01a runs the convenience API (SetAny/GetAny/DeleteAny/ExistAny over every argument type of toBa, Set, Name, Stats) against Model/AnyKey.lean; the priority Set draws is unspecified and is read back, not compared."),
  "C02": ("Lean proof: flush_then_open + history refinement Machine.reopen_shows_last_flush; correspondence on file images",
          "For every history of collection ops, Set/Delete, Flush and re-open (to any depth), re-opening shows exactly the state at the last Flush (theorem reopen_is_last_flush; side conditions: plain names, sizes < 2^32). The Go package and the model are compared on full state dumps and byte-exact file images after flushes and re-opens.",
          "The history theorem's side condition excludes collection names that need JSON escapes; the root-record round trip for such names is C14.root_roundtrip, their behaviour in histories is covered by the correspondence runs (the name pool contains them)."),
